@@ -143,6 +143,44 @@ def real_find(H, cls2key, target, name, kind):
     return show_found(H, cls2key, r)
 
 
+def with_child_hint(rng) -> bool:
+    return rng.random() < 0.8
+
+
+def real_project_find(H, cls2key, fp, FordLinkProcessor, types, proj, ref, link):
+    """the real `Project.find(name, kind, child, child kind)` - or, with `link`, the real `convert_link` on
+    `[[name(kind):child(kind)]]` without a context - on the project the description was loaded into: what is found
+    (linked), or the exception; None when an entity of B itself is met (not this stream's matter)"""
+    name, kind, child, ck = ref
+    try:
+        with common.quiet():
+            if not link:
+                r = fp.Project.find(proj, name, kind, child, ck)
+            else:
+                rec = types.SimpleNamespace(last=None)
+
+                def find(*a, **k):
+                    rec.last = fp.Project.find(proj, *a, **k)
+                    return rec.last
+
+                md = types.SimpleNamespace(current_context=None, current_path=None, base_url=Path("/out"))
+                lp = FordLinkProcessor(md, project=types.SimpleNamespace(find=find))
+                text = "[[" + name + (f"({kind})" if kind is not None else "") + (
+                    (":" + child + (f"({ck})" if ck is not None else "")) if child is not None else "") + "]]"
+                m = lp.LINK_RE.fullmatch(text)
+                if m is None:
+                    return None
+                el = lp.convert_link(m)
+                r = rec.last if el.get("href") is not None else None
+    except (ValueError, TypeError, AttributeError) as e:
+        return ["err", type(e).__name__]
+    except RuntimeError:
+        return None
+    if r is not None and not hasattr(r, "external_url"):
+        return None
+    return show_found(H, cls2key, r)
+
+
 def child_oracle(H, rep, doc, proj, tops, base, remote, case):
     """statement: an entity of A that B names in a `[[...]]` reference is linked to the URL in A's documentation
     that documents it - for the module-qualified forms: from the module every entity it lists is reached by its
@@ -201,8 +239,13 @@ def child_stream(H, rep, drv, rng, docs, n_docs, per_doc, stats):
     cls2key = {c.__name__: k for k, c in xp.ENTITIES.items()}
     kinds = list(sf.SUBLINK_TYPES)
     reqs, meta = [], []
+    preqs, pmeta = [], []
     rewrites = []
     n_oracle = 0
+    import ford.fortran_project as fp
+    from ford._markdown import FordLinkProcessor
+    import types as _types
+    top_kinds = list(fp.LINK_TYPES)
     for k in range(n_docs):
         doc, tag = rng.choice(docs), "exported"
         if k % 3 == 2:
@@ -258,11 +301,41 @@ def child_stream(H, rep, drv, rng, docs, n_docs, per_doc, stats):
             kind = (None if r < 0.4 else _swapcase(rng, its_kind) if its_kind and r < 0.65 else _swapcase(rng, rng.choice(usual))
                     if r < 0.8 else _swapcase(rng, rng.choice(kinds)) if r < 0.93 else rng.choice(["bogus", "", "module"]))
             im = real_find(H, cls2key, target, name, kind)
+            # the same reference through Project.find / convert_link: parent by its (bare or kind-qualified) name
+            pname = getattr(target, "name", None)
+            if isinstance(pname, str) and re.fullmatch(r"\w+", pname) and re.fullmatch(r"\w+", name):
+                r2 = rng.random()
+                fitting = {"-": ["extmodule", "module"], "types": ["exttype", "type"], "functions": ["extfunction", "extproc", "function"],
+                           "subroutines": ["extsubroutine", "extprocedure"], "interfaces": ["extinterface", "extproc", "extprocedure"],
+                           "variables": ["extmodule"]}.get(attr if with_child_hint(rng) else "?", top_kinds)
+                pkind = (None if r2 < 0.45 else _swapcase(rng, rng.choice(fitting)) if r2 < 0.8 else
+                         _swapcase(rng, rng.choice(top_kinds)) if r2 < 0.95 else "bogus")
+                with_child = rng.random() < 0.75
+                link = rng.random() < 0.4 and (kind is None or re.fullmatch(r"\w+", kind))
+                ref = [_swapcase(rng, pname) if with_child else name, pkind, name if with_child else None,
+                       kind if with_child else None]
+                if not with_child and rng.random() < 0.5:
+                    ref[1] = None
+                pim = real_project_find(H, cls2key, fp, FordLinkProcessor, _types, proj, ref, link)
+                if pim is not None:
+                    preqs.append(["c16.pfind", "1" if remote else "0", base, "=" + ref[0]] +
+                                 ["-" if x is None else "+" + x for x in ref[1:]] + ["1" if link else "0"] + H.enc_json(doc, []))
+                    pmeta.append((case, ref, link, pim))
             reqs.append(["c16.child", "1" if remote else "0", base, str(mi), attr, str(si), "=" + name,
                          "-" if kind is None else "+" + kind] + H.enc_json(doc, []))
             meta.append((case, mi, attr, si, name, kind, im))
     got = drv.batch(reqs) if reqs else []
     bad = 0
+    # ---- Project.find / convert_link on the loaded project (names B does not define)
+    pgot = drv.batch(preqs) if preqs else []
+    for (case, ref, link, im), g in zip(pmeta, pgot):
+        key = (f"find:{case['tag']}:{'link' if link else 'find'}:{'kind' if ref[1] else 'any'}:"
+               f"{'child' if ref[2] else 'top'}:{im[0] if im[0] != 'err' else im[1]}")
+        stats[key] = stats.get(key, 0) + 1
+        if list(g) != im:
+            bad += 1
+            rep.tie_broken(f"correspondence {'convert_link' if link else 'Project.find'} ({case['tag']}): model {H.short(list(g))} "
+                           f"vs implementation {H.short(im)}", dict(case, reference=ref, impl=im, model=list(g)))
     for (case, mi, attr, si, name, kind, im), g in zip(meta, got):
         key = (f"child:{case['tag']}:{'module' if attr == '-' else attr}:{'kind' if kind is not None else 'any'}:"
                f"{im[0] if im[0] != 'err' else im[1]}")
@@ -282,7 +355,7 @@ def child_stream(H, rep, drv, rng, docs, n_docs, per_doc, stats):
             rep.tie_broken("correspondence rewrite: the description after load_external_modules differs from the model's "
                            f"rewriteDoc at {H.first_diff(mo, held)}", {"stream": "child", "description": d})
     stats["child:oracle-descriptions"] = n_oracle
-    return len(reqs) + len(rewrites), bad
+    return len(reqs) + len(preqs) + len(rewrites), bad
 
 
 # --------------------------------------------------------------------------- histories
@@ -306,6 +379,7 @@ def history_stream(H, rep, drv, rng, docs, n, stats, d: Path):
     if not good:
         return 0, 0
     bad = ev = 0
+    pending = []
     for k in range(n):
         hd = d / "H" / f"a{k % 3}" / "doc"            # the same few places again and again, as a workspace has them
         hd.mkdir(parents=True, exist_ok=True)
@@ -333,14 +407,9 @@ def history_stream(H, rep, drv, rng, docs, n, stats, d: Path):
             ev += 1
             case = {"stream": "history", "external": f"a = {written}", "steps": [s[0] for s in steps[:si + 1]],
                     "description_on_disk": doc, "description_before": first if doc is not first else None}
-            g = drv.call("c16.import", "0", base, *H.enc_json(doc, []))
-            mo = H.model_import_result(list(g))
+            pending.append((["c16.import", "0", base] + H.enc_json(doc, []), what, case, res))
             key = f"history:step{si}:{'rewritten-file' if write and si else 'same-file'}:{res[0]}"
             stats[key] = stats.get(key, 0) + 1
-            if mo != res:
-                bad += 1
-                rep.tie_broken(f"correspondence history ({what}): model {H.short(mo)} vs implementation {H.short(res)}",
-                               dict(case, impl=res, model=mo))
             # oracles on the real code alone
             if not write and loads[si - 1] != res:
                 prev = loads[si - 1]
@@ -360,6 +429,12 @@ def history_stream(H, rep, drv, rng, docs, n, stats, d: Path):
                                            why=f"expected {want[:4]}, got {have[:4]}"), None)
             elif res[0] != "ok":
                 rep.failing_input(dict(case, oracle="loading a valid description does not end the run", why=res[1]), None)
+    for (req, what, case, res), g in zip(pending, drv.batch([p[0] for p in pending]) if pending else []):
+        mo = H.model_import_result(list(g))
+        if mo != res:
+            bad += 1
+            rep.tie_broken(f"correspondence history ({what}): model {H.short(mo)} vs implementation {H.short(res)}",
+                           dict(case, impl=res, model=mo))
     return ev, bad
 
 
